@@ -71,11 +71,11 @@ impl Slicing {
             ),
             _ => return Ok(lhs.instruction),
         };
-        if let (Some(index), _, _) | (_, Some(index), _) | (_, _, Some(index)) =
-            (&start, &stop, &step)
-            && index.return_type() != Type::Int
-        {
-            return Err(Error::CannotIndexWith(index.str.clone()));
+        // every bound that is present must be an int
+        for index in [&start, &stop, &step].into_iter().flatten() {
+            if index.return_type() != Type::Int {
+                return Err(Error::CannotIndexWith(index.str.clone()));
+            }
         }
 
         Ok(Self {
